@@ -1,6 +1,6 @@
 (* Extract.v — extraction of the executable model (ExtrOcamlBasic only). *)
 From Coq Require Extraction.
 From Coq Require Import ExtrOcamlBasic.
-From LC Require Import Run.
+From LC Require Import Run MemModel.
 Extraction Language OCaml.
-Extraction "model.ml" Run.run_script.
+Extraction "model.ml" Run.run_script MemModel.run_mem_script.
